@@ -999,7 +999,13 @@ func (ck *checker) hooks(r *rand.Rand) {
 	o, _ := ck.options(r)
 	var val any
 	label := ""
-	switch r.Intn(5) {
+	switch r.Intn(8) {
+	case 5:
+		val, label = &HookWrap{N: 1, In: h}, "member-by-value-of-addressable-struct"
+	case 6:
+		val, label = &HookCart{Items: []HookHolder{h}, Last: &h}, "slice-element-of-addressable-struct"
+	case 7:
+		val, label = HookWrap{N: 2, In: h}, "member-by-value"
 	case 0:
 		val, label = h, "value"
 	case 1:
